@@ -23,14 +23,16 @@ func init() {
 // with small numbers; the harness's owner key is the contract owner.
 func scOverrides() map[string]any {
 	return map[string]any{
-		"smart_contracts.minersc.owner_id":               world.FileKey("owner", "b0owner_keys.txt").ID,
-		"smart_contracts.minersc.min_stake":              1e-9,   // 10 units
-		"smart_contracts.minersc.max_stake":              1e-8,   // 100 units
-		"smart_contracts.minersc.min_stake_per_delegate": 1e-9,   // provider eligible for rewards from 10 units of stake
-		"smart_contracts.minersc.block_reward":           2.3e-9, // 23 units
-		"smart_contracts.minersc.share_ratio":            0.3,
-		"smart_contracts.minersc.num_sharders_rewarded":  2,
-		"smart_contracts.storagesc.max_stake":            0.1, // 10^9 units (min_stake stays 0.01 = 10^8 units)
+		"smart_contracts.minersc.owner_id":                 world.FileKey("owner", "b0owner_keys.txt").ID,
+		"smart_contracts.minersc.min_stake":                1e-9,   // 10 units
+		"smart_contracts.minersc.max_stake":                1e-8,   // 100 units
+		"smart_contracts.minersc.min_stake_per_delegate":   1e-9,   // provider eligible for rewards from 10 units of stake
+		"smart_contracts.minersc.block_reward":             2.3e-9, // 23 units
+		"smart_contracts.minersc.share_ratio":              0.3,
+		"smart_contracts.minersc.num_sharders_rewarded":    2,
+		"smart_contracts.storagesc.max_stake":              0.1,  // 10^9 units (min_stake stays 0.01 = 10^8 units)
+		"smart_contracts.storagesc.min_stake_per_delegate": 0.01, // blobbers earn rewards from 10^8 units of stake
+		"smart_contracts.storagesc.min_write_price":        0.0,  // a zero-price blobber makes no offers: it can lose all stake while it stores data
 	}
 }
 
@@ -93,6 +95,9 @@ func explorePhases(run *ev.Run, w *world.World, phases []phase, mons ...chainsim
 	bounds := map[string]any{}
 	alph := map[string][]string{}
 	for i, p := range phases {
+		if only := os.Getenv("VERIF_ONLY_PHASE"); only != "" && only != p.name {
+			continue // debugging aid: run a single phase
+		}
 		os.Setenv("VERIF_PHASE", strconv.Itoa(i))
 		(&chainsim.Explorer{Run: run, W: w, Actions: p.actions, Roots: p.roots, Depth: p.depth, Monitors: mons, Budget: p.budget}).Explore()
 		states += run.States
@@ -221,9 +226,23 @@ func c23(run *ev.Run) {
 	}
 	sa = append(sa, sCall(w, "owner", "kill_validator", "v0"), sCall(w, "c2", "kill_validator", "v0"), sCall(w, "owner", "kill_blobber", "b1"),
 		sCall(w, "c3", "shutdown_blobber", "b1"), sCall(w, "owner", "kill_validator", "b0"), sUnlock(w, "c0", "b0"), sLock(w, "c2", "v0", 1e8))
+	// a blobber that stores data (its records survive a kill) with and without stake left:
+	// b1 serves allocation A of c1 and holds a written MiB; the owner zeroes its offers and the
+	// only delegate unstakes (dataNoStake), or the delegate stays (dataStaked).
+	dataStaked := []chainsim.Action{addBlobberPriced(w, "b1", "c3", 1e7), addBlobberPriced(w, "b2", "c3", 1e7), addBlobberPriced(w, "b3", "c3", 1e7),
+		sLock(w, "c0", "b1", 2e8), sLock(w, "c0", "b2", 2e8), sLock(w, "c0", "b3", 2e8),
+		newAllocation(w, "A", "c1", []string{"b1", "b2", "b3"}, 64<<20, 1e9), commitWrite(w, "A", "c1", "b1", 1<<20), readPoolLock(w, "c1", 1e9),
+		readRedeem(w, "A", "b1", "c1", 1)}
+	dataNoStake := append(append([]chainsim.Action{}, dataStaked...), resetOffers(w, "b1"), sUnlock(w, "c0", "b1"))
+	da := []chainsim.Action{
+		sCall(w, "owner", "kill_blobber", "b1"), sCall(w, "c2", "kill_blobber", "b1"), sCall(w, "owner", "shutdown_blobber", "b1"), sCall(w, "c3", "shutdown_blobber", "b1"),
+		sLock(w, "c2", "b1", 2e8), sUnlock(w, "c2", "b1"), readRedeem(w, "A", "b1", "c1", 3), readRedeem(w, "A", "b1", "c1", 5),
+		sCall(w, "owner", "kill_blobber", "b2"), sCollect(w, "c2", "b1"),
+	}
 	explorePhases(run, w, []phase{
+		{"storage-data", da, [][]chainsim.Action{dataNoStake, dataStaked}, run.Pick(3, 4), secs(run, 30, 150)},
 		{"kill-full", ka, [][]chainsim.Action{rootStaked(w), withRewards}, run.Pick(3, 4), secs(run, 40, 250)},
-		{"kill-core", core, [][]chainsim.Action{withRewards}, run.Pick(4, 5), secs(run, 40, 250)},
+		{"kill-core", core, [][]chainsim.Action{withRewards}, run.Pick(4, 5), secs(run, 30, 250)},
 		{"storage", sa, [][]chainsim.Action{sroot}, run.Pick(3, 4), secs(run, 30, 120)},
 	}, killMonitor, storageKillMonitor)
 }
